@@ -18,6 +18,8 @@ type Ctx struct {
 	progs map[string]*core.Prog
 	mu    sync.Mutex
 	Sum   map[string]*apo.Summarizer
+	// Overlay: file contents replacing the working tree's (self-test of seeded changes)
+	Overlay map[string][]byte
 }
 
 func NewCtx(prop, tier string) *Ctx {
@@ -32,7 +34,7 @@ func (c *Ctx) Prog(cfg string) *core.Prog {
 	if p, ok := c.progs[cfg]; ok {
 		return p
 	}
-	p, err := core.Load(core.Configs[cfg], nil)
+	p, err := core.Load(core.Configs[cfg], c.Overlay)
 	if err != nil {
 		c.R.Fatalf("configuration %s does not load: %v", cfg, err)
 		c.progs[cfg] = nil
@@ -86,6 +88,13 @@ func Run(prop, tier string) int {
 	c.R.Explanation = p.Explanation
 	c.R.RuleText = p.RuleText
 	c.R.NotDecided = p.NotDecided
+	if t, ok := propText[prop]; ok {
+		c.R.Explanation = t.Explanation
+		c.R.NotDecided = t.NotDecided
+	}
+	if c.R.RuleText == "" || len(c.R.RuleText) < 60 {
+		c.R.RuleText = p.RuleText + " — " + ruleGlossary
+	}
 	c.R.Trusted = p.Trusted
 	c.R.Assumptions = p.Assumptions
 	func() {
@@ -95,6 +104,11 @@ func Run(prop, tier string) int {
 			}
 		}()
 		p.Run(c)
+		if tier == "thorough" {
+			SelfTest(c, p)
+		}
 	}()
 	return c.R.Finish()
 }
+
+const ruleGlossary = "each obligation is one rule instance at one construct, keyed rule|function|site (canonical condition, region or call descriptor built from resolved callees, parameter indices, field names, constants); rules are defined in DESIGN.md section 3; an obligation is counted non-trivial when deciding it required evaluating at least one branch, store, call summary or dataflow fact (anchor and bookkeeping obligations are trivial)"
